@@ -4,6 +4,7 @@ import (
 	"crypto/sha256"
 	"encoding/hex"
 	"fmt"
+	"net"
 	"net/url"
 	"regexp"
 	"strings"
@@ -39,6 +40,10 @@ func removeSpace(str string) string {
 
 func Normalize(zone string) (string, error) {
 	trimmed := removeSpace(zone)
+	if net.ParseIP(trimmed) != nil {
+		// certmagic only rejects non-public addresses; a hostname is never an IP literal
+		return "", fmt.Errorf("acme: zone cannot be an IP address")
+	}
 	if !certmagic.SubjectQualifiesForPublicCert(trimmed) {
 		return "", fmt.Errorf("acme: invalid zone for acme certificate")
 	}
